@@ -24,7 +24,7 @@ Init ==
   /\ st = [n \in Corr |-> InitNode]
   /\ dec = [n \in Corr |-> Nil]
   /\ sgn = [n \in Corr |-> << >>]
-  /\ gst = [on |-> FALSE, round |-> [n \in Corr |-> 0]]
+  /\ gst = [on |-> FALSE, round |-> 0]
   /\ viol = {}
   /\ drift = {}
 
@@ -38,8 +38,8 @@ ObsNode(p, spec) ==
     propBlock |-> p.propBlock, partsHdr |-> p.partsHdr, ttp |-> p.ttp, commitR |-> p.commitR,
     pv |-> [r \in Rounds |-> p.pv[r + 1]], pc |-> [r \in Rounds |-> p.pc[r + 1]],
     tracked |-> SeqToSet(p.tracked) \cap Rounds,
-    catchup |-> spec.catchup,
-    decision |-> p.decision, panic |-> "none", stuck |-> FALSE, out |-> << >> ]
+    catchup |-> spec.catchup, lastCommit |-> spec.lastCommit,
+    decision |-> p.decision, panic |-> p.panic, stuck |-> FALSE, out |-> << >> ]
 
 OutSeq(o) == [i \in DOMAIN o |-> Msg(o[i].t, o[i].r, o[i].v, o[i].pol)]
 
@@ -79,7 +79,7 @@ StepReset(e) ==
   /\ st' = [n \in Corr |-> InitNode]
   /\ dec' = [n \in Corr |-> Nil]
   /\ sgn' = [n \in Corr |-> << >>]
-  /\ gst' = [on |-> FALSE, round |-> [n \in Corr |-> 0]]
+  /\ gst' = [on |-> FALSE, round |-> 0]
   /\ drift' = drift \cup FailIf(
         \/ SeqToSet(e.vals) # Vals
         \/ \E v \in Vals : e.powers[v] # PowerOf[v]
@@ -98,13 +98,19 @@ StepNode(e) ==
   IN /\ st' = [st EXCEPT ![n] = post]
      /\ sgn' = [sgn EXCEPT ![n] = sgn[n] \o rel]
      /\ drift' = drift
-          \cup FailIf(post # ClearOut(s2), [l |-> l, what |-> "post-state differs from spec (" \o e.ev \o ")",
+          \* a step in which the real code panicked leaves a half-updated object (deferred functions run
+          \* while unwinding): only the fact and the reason of the panic are compared for such steps
+          \cup FailIf(e.post.panic # "none" /\ s2.panic # e.post.panic,
+                      [l |-> l, what |-> "the code panicked where the spec does not (or for another reason): " \o e.post.panic,
+                       fields |-> <<"panic">>])
+          \cup FailIf(e.post.panic = "none" /\ post # ClearOut(s2), [l |-> l, what |-> "post-state differs from spec (" \o e.ev \o ")",
                                               fields |-> SetToSeq({f \in DOMAIN post : post[f] # ClearOut(s2)[f]})])
-          \cup FailIf(OutSeq(e.out) # s2.out, [l |-> l, what |-> "outputs differ from spec (" \o e.ev \o ")", fields |-> <<"out">>])
+          \cup FailIf(e.post.panic = "none" /\ OutSeq(e.out) # s2.out, [l |-> l, what |-> "outputs differ from spec (" \o e.ev \o ")", fields |-> <<"out">>])
      /\ viol' = viol
           \cup SignsViol(n, sgn[n], rel, l)
+          \cup FailIf(e.post.panic # "none", [l |-> l, inv |-> "NoPanic", class |-> e.post.panic])
           \* C03: after GST no node may run more than the bound ahead of where it was
-          \cup FailIf(gst.on /\ post.height = 1 /\ post.round > gst.round[n] + e.bound,
+          \cup FailIf(gst.on /\ post.height = 1 /\ post.round > gst.round + e.bound,
                       [l |-> l, inv |-> "BoundedRounds", class |-> "round bound exceeded after GST"])
      /\ UNCHANGED <<dec, gst>>
 
@@ -123,14 +129,14 @@ StepDecision(e) ==
 \* restore a state that an earlier, already validated run has reached through the same events
 \* (runs generated from a state graph share prefixes; each distinct prefix is validated once)
 StepSet(e) ==
-  /\ st' = [st EXCEPT ![e.n] = ObsNode(e.post, [catchup |-> e.catchup])]
+  /\ st' = [st EXCEPT ![e.n] = ObsNode(e.post, [catchup |-> e.catchup, lastCommit |-> [r |-> -1, votes |-> EmptyVS]])]
   /\ sgn' = [sgn EXCEPT ![e.n] = e.signs]
   /\ dec' = [dec EXCEPT ![e.n] = e.dec]
   /\ UNCHANGED <<gst, viol, drift>>
 
 \* C03: start of the synchronous suffix / verdict of the suffix executor
 StepGST(e) ==
-  /\ gst' = [on |-> TRUE, round |-> [n \in Corr |-> st[n].round]]
+  /\ gst' = [on |-> TRUE, round |-> LET S == {st[n].round : n \in Corr} IN CHOOSE x \in S : \A y \in S : y <= x]
   /\ UNCHANGED <<st, dec, sgn, viol, drift>>
 
 StepSyncEnd(e) ==
